@@ -9,6 +9,9 @@ Record case := mkCase {
   c_par : bool;                               (* runFanInitializationInParallel *)
   c_fans : list (Z * (fancfg * caps));
   c_db0 : list (Z * entry);
+  c_faulty : list Z;                          (* fans with an injected device fault (write / read error during the analysis):
+                                                 outside the model's assumption that the device answers; their action lists are
+                                                 not compared, their analysis intervals count like everybody's *)
   o_acts : list (Z * list action);            (* per fan: observable start-up actions *)
   o_ivs : list (Z * (Z * Z));                 (* per analysed fan: (first, last) sequence number of its analysis *)
 }.
@@ -63,9 +66,12 @@ Definition overlap_allowed (c : case) : bool :=
 
 Definition acts_eqb (a b : Z * list action) : bool := (fst a =? fst b) && list_eqb action_eqb (snd a) (snd b).
 
+Definition sound (c : case) (id : Z) : bool := negb (existsb (Z.eqb id) (c_faulty c)).
+
 Definition mismatch (c : case) : bool :=
-  negb (list_eqb acts_eqb (model_acts c) (o_acts c)
-        && list_eqb Z.eqb (map fst (filter (fun x => analysed (snd x)) (model_acts c))) (map fst (o_ivs c))
+  negb (list_eqb acts_eqb (filter (fun x => sound c (fst x)) (model_acts c)) (filter (fun x => sound c (fst x)) (o_acts c))
+        && list_eqb Z.eqb (map fst (filter (fun x => sound c (fst x) && analysed (snd x)) (model_acts c)))
+                          (filter (sound c) (map fst (o_ivs c)))
         && implb (negb (pdb (map snd (o_ivs c)))) (overlap_allowed c)).
 
 (* ---- the property on the implementation's observation ---- *)
